@@ -3,6 +3,7 @@ package routing
 import (
 	"bytes"
 	"fmt"
+	"strings"
 	"testing"
 
 	"github.com/dtn7/dtn7-go/pkg/bpv7"
@@ -21,7 +22,9 @@ type c15Case struct {
 	RptSelf  bool   `json:"rpt_self"`              // report-to is an endpoint of this node
 }
 
-var c15Outcomes = []string{"delivered", "no-agent", "forwarded", "send-fails", "expired", "hop-exceeded", "unknown-block", "no-route"}
+var c15Outcomes = []string{"delivered", "no-agent", "forwarded", "send-fails", "expired", "hop-exceeded", "unknown-block", "no-route",
+	// the event happens when the bundle is retried from the store, not when it is received
+	"forwarded-later", "send-fails-then-ok", "hop-exceeded-later", "unknown-block-later"}
 
 type c15Report struct {
 	raw      []byte
@@ -113,9 +116,9 @@ func c15Body(c *vk.Ctx, cs c15Case) {
 	spec.Blocks = []vk.BlockSpec{{Type: vk.BTPayload, Num: 1, CRC: 2, Data: payload}}
 	hasReportBlock := false
 	switch cs.Outcome {
-	case "hop-exceeded":
+	case "hop-exceeded", "hop-exceeded-later":
 		spec.Blocks = append([]vk.BlockSpec{{Type: vk.BTHop, Num: 2, Limit: 5, Count: 5}}, spec.Blocks...)
-	case "unknown-block":
+	case "unknown-block", "unknown-block-later":
 		spec.Blocks = append([]vk.BlockSpec{{Type: 99, Num: 2, Flags: cs.BlockFl, Data: []byte{1, 2, 3}}}, spec.Blocks...)
 		hasReportBlock = cs.BlockFl&vk.BFReport != 0
 	case "expired":
@@ -124,10 +127,11 @@ func c15Body(c *vk.Ctx, cs c15Case) {
 	switch cs.Outcome {
 	case "forwarded", "unknown-block", "hop-exceeded":
 		s.addPeer("dest")
-	case "send-fails":
+	case "send-fails", "send-fails-then-ok":
 		s.addPeer("dest")
 		s.setFailAll("dest", true)
 	}
+	later := strings.HasSuffix(cs.Outcome, "-later")
 	raw := spec.Encode(dtnNow())
 	win, err := vk.ReadBundle(raw)
 	if err != nil {
@@ -146,6 +150,18 @@ func c15Body(c *vk.Ctx, cs c15Case) {
 		s.tickClean()
 	}
 	s.tickPending()
+	if later || cs.Outcome == "send-fails-then-ok" {
+		// further retries while nothing can be done, then the way opens
+		s.tickPending()
+		if later {
+			s.addPeer("dest")
+		} else {
+			s.setFailAll("dest", false)
+		}
+		s.tickPending()
+		s.tickPending()
+		c.Class("event happens on a retry from the store")
+	}
 	if cs.Req != 0 {
 		c.NonTrivial()
 	}
@@ -153,9 +169,15 @@ func c15Body(c *vk.Ctx, cs c15Case) {
 
 	// the facts
 	sentOK, handedOver := false, false
+	nSentOK := 0
+	var sentLog []string
 	for _, x := range s.sendsSince(0) {
+		if x.ID == id {
+			sentLog = append(sentLog, fmt.Sprintf("%s:%v", x.Peer, x.OK))
+		}
 		if x.ID == id && x.OK {
 			sentOK = true
+			nSentOK++
 		}
 	}
 	for _, b := range s.app.received() {
@@ -168,7 +190,7 @@ func c15Body(c *vk.Ctx, cs c15Case) {
 		idv = b0.ID()
 	}
 	inStore := cs.Outcome != "expired" && s.storeHas(idv)
-	unknownDelete := cs.Outcome == "unknown-block" && cs.BlockFl&vk.BFDeleteBndl != 0
+	unknownDelete := (cs.Outcome == "unknown-block" || cs.Outcome == "unknown-block-later") && cs.BlockFl&vk.BFDeleteBndl != 0
 
 	// collect the reports
 	var reports []c15Report
@@ -195,7 +217,7 @@ func c15Body(c *vk.Ctx, cs c15Case) {
 		}
 	}
 	c.Classf("outcome=%s reports=%d", cs.Outcome, len(reports))
-	seen := map[int]bool{}
+	seen := map[[2]uint64]bool{}
 	for _, r := range reports {
 		what := fmt.Sprintf("report about %s (item %d, reason %d) seen at %s", r.ref, r.asserted, r.reason, r.where)
 		if cs.RptSelf {
@@ -216,10 +238,22 @@ func c15Body(c *vk.Ctx, cs c15Case) {
 		if r.hasTime != cs.Time {
 			s.failf("c15.time", "%s: time present = %v, requested = %v", what, r.hasTime, cs.Time)
 		}
-		if seen[r.asserted] && !(r.asserted == 0 && hasReportBlock && cs.Req&vk.FReqRecv != 0) {
-			s.failf("c15.duplicate-report", "%s: this status was already reported", what)
+		// one event, one report: the reception may be reported once because the bundle asked for it and once
+		// (with the reason "block unsupported") because a block asked for it, nothing is reported twice
+		key := [2]uint64{uint64(r.asserted), r.reason}
+		nForwarded := 0
+		if r.asserted == 1 {
+			for _, r2 := range reports {
+				if r2.asserted == 1 {
+					nForwarded++
+				}
+			}
 		}
-		seen[r.asserted] = true
+		if seen[key] && !(r.asserted == 1 && nForwarded <= nSentOK) {
+			// (every successful transmission is a forwarding event of its own)
+			s.failf("c15.duplicate-report", "%s: this status was already reported with the same reason, although the event happened once (transmissions of the bundle: %v)", what, sentLog)
+		}
+		seen[key] = true
 		switch r.asserted {
 		case 0: // received
 			byFlag := cs.Req&vk.FReqRecv != 0
@@ -248,7 +282,7 @@ func c15Body(c *vk.Ctx, cs c15Case) {
 			if inStore {
 				s.failf("c15.untrue-report", "%s: deletion was reported, but the bundle is still in the store", what)
 			}
-			if !(cs.Outcome == "hop-exceeded" || cs.Outcome == "expired" || unknownDelete) {
+			if !(cs.Outcome == "hop-exceeded" || cs.Outcome == "hop-exceeded-later" || cs.Outcome == "expired" || unknownDelete) {
 				s.failf("c15.untrue-report", "%s: deletion was reported, but nothing in this scenario deletes the bundle (outcome %s)", what, cs.Outcome)
 			}
 		default:
@@ -304,7 +338,7 @@ func eidSpec(uri string) vk.EIDSpec {
 
 func TestVerifC15Matrix(t *testing.T) {
 	u := vk.Unit{Property: "C15", Name: "c15.matrix",
-		Rule: "matrix: {16 combinations of the four status-request flags} x {time flag} x {fragment / whole} x outcome {delivered to an agent, addressed to the node without agent, forwarded, all sends fail, lifetime expired, hop limit exceeded, no route, unknown block x 8 block-flag combinations} x {report-to = a peer / this node}, each cell on a fresh node (quick: every third cell with epidemic; thorough: every cell with epidemic, spray and prophet); every administrative-record bundle captured at a scripted peer or agent is decoded with the independent reader and must be well-formed, addressed to the report-to endpoint, reference the exact bundle ID (incl. fragment offset/length), carry one asserted item, a time iff requested, no request flags, and be justified by a logged event and a request; captured reports are fed back into the node (as transit and as local bundles) and must not produce further reports; non-trivial = cell with >= 1 request flag; distinct by case"}
+		Rule: "matrix: {16 combinations of the four status-request flags} x {time flag} x {fragment / whole} x outcome {delivered to an agent, addressed to the node without agent, forwarded, all sends fail, lifetime expired, hop limit exceeded, no route, unknown block x 8 block-flag combinations, and the variants in which the event happens on a retry from the store: forwarded later, sends fail then succeed, hop limit exceeded later, unknown block + forwarded later} x {report-to = a peer / this node}, each cell on a fresh node (quick: every third cell with epidemic; thorough: every cell with epidemic, spray and prophet); every administrative-record bundle captured at a scripted peer or agent is decoded with the independent reader and must be well-formed, addressed to the report-to endpoint, reference the exact bundle ID (incl. fragment offset/length), carry one asserted item, a time iff requested, no request flags, and be justified by a logged event and a request, each (status, reason) reported at most once; captured reports are fed back into the node (as transit and as local bundles) and must not produce further reports; non-trivial = cell with >= 1 request flag; distinct by case"}
 	var cells []c15Case
 	reqs := []uint64{}
 	for m := 0; m < 16; m++ {
@@ -333,7 +367,7 @@ func TestVerifC15Matrix(t *testing.T) {
 				for _, fr := range []bool{false, true} {
 					for _, oc := range c15Outcomes {
 						bfs := []uint64{0}
-						if oc == "unknown-block" {
+						if oc == "unknown-block" || oc == "unknown-block-later" {
 							bfs = []uint64{0, vk.BFReport, vk.BFDeleteBndl, vk.BFRemove, vk.BFReport | vk.BFDeleteBndl, vk.BFReport | vk.BFRemove, vk.BFDeleteBndl | vk.BFRemove, vk.BFReport | vk.BFDeleteBndl | vk.BFRemove}
 						}
 						for _, bf := range bfs {
